@@ -60,11 +60,15 @@ def replay_known(ctx, res):
         if f['id'] == 'F18' and f['status'] == 'open':
             w = f['witness']
             p = Lark(w['grammar'], parser='earley', lexer=w['lexer'])
+            from lark.exceptions import UnexpectedInput
             try:
                 p.parse(w['text'])
+                res.violation('the pinned witness of F18 behaves in a new way: accepted', dict(w))
             except UnexpectedCharacters as e:
                 if e.pos_in_stream != 0:
                     res.known_hits.append(('F18', '%s: %r on %r reports offset %d, first dead offset is 0' % (f['what'], w['grammar'], w['text'], e.pos_in_stream)))
+            except UnexpectedInput as e:
+                res.violation('the pinned witness of F18 behaves in a new way: %s instead of UnexpectedCharacters' % type(e).__name__, dict(w))
 
 
 def run(ctx, res):
